@@ -8,7 +8,7 @@ RULE = ("case 'seq' = (matrix with 1..5 frames, 0..4 signals each, sender/receiv
         "ECUs referenced but not listed and some listed but not referenced, frame receiver lists up to date, optional free signals; "
         "a sequence of 1..8 (thorough: ..30) operations rename (new name unused) / delete by instance / delete by glob pattern / "
         "update ECU list / remove obsolete / add+delete signal receiver by glob); the state after every operation is observed. "
-        "case 'glob' = (pattern, name) for the glob matcher itself. Non-trivial = distinct sequence in which at least one "
+        "Every third listed ECU has a comment, every third an attribute. case 'glob' = (pattern, name) for the glob matcher itself. Non-trivial = distinct sequence in which at least one "
         "operation changed the matrix.")
 PARTIAL = ["Ecu objects are modelled by their names (comment and attributes of an ECU play no role in reference maintenance)"]
 ASSUMPTIONS = ["reference lists are duplicate-free and frame receiver lists up to date initially (the state the readers produce)",
@@ -91,8 +91,14 @@ def neighbours(case, rng, shard, nshards):
 
 def build(m):
     db = cm.CanMatrix()
-    for e in m["ecus"]:
-        db.ecus.append(cm.Ecu(e))
+    for k, e in enumerate(m["ecus"]):
+        ecu = cm.Ecu(e)
+        # ECUs are told apart by their names; some carry a comment or an attribute
+        if k % 3 == 1:
+            ecu.comment = "node " + e
+        if k % 3 == 2:
+            ecu.add_attribute("NodeLayer", "1")
+        db.ecus.append(ecu)
     for k, (name, tx, rx, sigs) in enumerate(m["frames"]):
         fr = cm.Frame(name, arbitration_id=cm.ArbitrationId(k + 1, False), size=8, transmitters=list(tx))
         for sname, srx in sigs:
